@@ -281,6 +281,9 @@ class StmtMixin:
         raise VCError("assignment target %s at line %d" % (type(t).__name__, node.lineno))
 
     def store_attr(self, t, v, st, node):
+        if isinstance(t.value, ast.Name) and t.value.id == "self":
+            st.bind("self." + t.attr, v)
+            return
         raise VCError("attribute assignment at line %d" % node.lineno)
 
     def store_sub(self, base, sl, v, st, node):
